@@ -88,3 +88,8 @@ def shape_key(case, results):
         if r and "between-2dof-and-5dof-gates" in r.flags and t[1] in ("point", "vec"):
             key += "-between-gates"
     return key
+
+SOURCE_TIE = 'Source-level tie by proof (Tie/Kalman, Tie/KalmanMat, Props/C07s): new / initiate / predict / project / update / distance of the box and point filters, read from the nalgebra code as Mathlib matrices, are the textbook filter of Props/C07b on independent-coordinate states; Vec2DKalmanFilter maps the point filter over its elements; solve_lower_triangular / cholesky are contract parameters.'
+LEVEL_TEXT = LEVEL_TEXT + " " + SOURCE_TIE
+TRUSTED_BASE = TRUSTED_BASE + ["translator/kernels.py + rustexpr.py (reader of the Rust subset, per-function tables) for the functions named in SOURCE_TIE; generated definitions are proof obligations (Tie modules) on every run"]
+TECHNIQUE = TECHNIQUE + "; model regenerated from the source by a translator for the functions of SOURCE_TIE, tied by proof"
